@@ -237,7 +237,8 @@ func runCall(id *age.ScryptIdentity, route string, stanzas []refage.Stanza, file
 	case "LimitControl":
 		// tree-independent proof that the address-space limit bites
 		call = func() {
-			sink = make([]byte, 2<<30)
+			limitProbe := uint64(2) << 30
+			sink = make([]byte, limitProbe)
 			sink[len(sink)-1] = 1
 			o.Err = fmt.Sprintf("harness: allocated %d bytes under the limit", len(sink))
 			sink = nil
